@@ -465,7 +465,7 @@ func (e *Encoder) block(b *ssa.BasicBlock) {
 		e.vals[phi] = v
 	}
 	// loop header?
-	e.curBlk = b
+	e.curBlk, e.curPC = b, pc
 	if len(e.lockSites) > 0 {
 		e.refreshHeld(b, 0)
 	}
@@ -1397,6 +1397,12 @@ func (e *Encoder) ret(in *ssa.Return, st *State, pc string) {
 	}
 	retK := e.counts["$ret"]
 	e.counts["$ret"]++
+	if e.primary && !e.fc.Synth && in.Block() != e.fn.Recover {
+		// vacuity probe: a return that no input reaches under the assumptions made so far (requires, trusted
+		// contracts, assume sites, monitor invariants) is reported in the evidence
+		o := e.addObl("cover-return", "this return is reachable under the assumptions made on the way", pc, "false")
+		o.IsCover, o.Soft = true, true
+	}
 	for i, en := range e.fc.Ensures {
 		if !e.clauseInMode(en) {
 			continue
